@@ -160,8 +160,9 @@ prop('C31', prefix=['c31'],
 prop('C32', prefix=['c32'],
      bounds='three sheets; global names Rate = Sheet1!$A$1 and Base = Data!$B$3 created through Model::new_defined_name, used by =Rate*2+Base and =SUM(Rate,Base); one of: '
             'set_language to de / es / fr / it, set_locale to de, rename of the sheet no name refers to, move of any sheet to any index, deletion of the sheet no name refers to; '
-            'then (after the sheet rename) the name Rate is renamed to Tax; values through the real evaluator, stored and listed name formulas compared',
-     outside='sheet-local names, names referring to ranges or other names, renaming / deleting a sheet a name refers to, both file round trips (xlsx, bitcode), '
+            'then (after the sheet rename) the name Rate is renamed to Tax; values through the real evaluator, stored and listed name formulas compared; a second layout with a name local to the third sheet created first: deleting that sheet '
+            'leaves the global names working, and renaming Rate while moving it to the scope of Sheet1 rewrites the Sheet1 formula',
+     outside='other uses of sheet-local names, names referring to ranges, lambdas or other names, renaming / deleting a sheet a global name refers to, both file round trips (xlsx, bitcode), '
              'other formulas')
 prop('C33', prefix=['c33'],
      bounds='CF coordinates: row/column/position/count/offset any i32 inside the grid, sheet ids any u32; links: 2 links at any distinct in-grid '
